@@ -318,3 +318,134 @@ Qed.
 
 Theorem arr_writes_in_bounds : forall n : nat, Forall wr_in (a_writes (arr_run n 0 0)).
 Proof. intro n. assert (H : 0 <= 0 <= 0) by lia. apply (arr_run_safe n 0 0 H). Qed.
+
+(* ================================================================ contents *)
+(* The block as a list of octets: what the open-type loop hands to the decoder of the contents is the
+   concatenation of the fragments, however the sender cut the value (the order-independence the tie observes
+   as "same value as the largest-first fragmentation"). *)
+
+Definition blit (buf : list Z) (off : nat) (d : list Z) : option (list Z) :=
+  if (off + length d <=? length buf)%nat then Some (firstn off buf ++ d ++ skipn (off + length d) buf) else None.
+
+(* realloc(): the old contents stay; the new part holds anything (here 0) *)
+Definition regrow (buf : list Z) (n : nat) : list Z := firstn n buf ++ repeat 0 (n - length buf).
+
+Section OTD.
+  Variable grow : Z -> Z -> Z.
+  Fixpoint ot_data (frs : list (list Z)) (buf : list Z) (len : nat) : option (list Z * nat) :=
+    match frs with
+    | [] => Some (buf, len)
+    | d :: tl =>
+        let c := length d in
+        let buf' := if (length buf <? len + c)%nat
+                    then regrow buf (Z.to_nat (grow (Z.of_nat (length buf)) (Z.of_nat c))) else buf in
+        match blit buf' len d with
+        | None => None
+        | Some b => ot_data tl b (len + c)
+        end
+    end.
+End OTD.
+
+Lemma regrow_length buf n : (length buf <= n)%nat -> length (regrow buf n) = n.
+Proof.
+  intro H. unfold regrow. rewrite app_length, repeat_length, firstn_all2 by exact H. lia.
+Qed.
+
+Lemma regrow_firstn buf n k : (k <= length buf)%nat -> (length buf <= n)%nat -> firstn k (regrow buf n) = firstn k buf.
+Proof.
+  intros Hk Hn. unfold regrow. rewrite (firstn_all2 buf) by exact Hn.
+  rewrite firstn_app. replace (k - length buf)%nat with 0%nat by lia. cbn. apply app_nil_r.
+Qed.
+
+Lemma blit_ok buf off d : (off + length d <= length buf)%nat ->
+  exists b, blit buf off d = Some b /\ length b = length buf /\ firstn (off + length d) b = firstn off buf ++ d.
+Proof.
+  intro H. unfold blit. assert (E : (off + length d <=? length buf)%nat = true) by (apply Nat.leb_le; exact H).
+  rewrite E. eexists. split; [reflexivity|]. split.
+  - rewrite !app_length, firstn_length, skipn_length. lia.
+  - rewrite app_assoc. rewrite firstn_app.
+    assert (L : length (firstn off buf ++ d) = (off + length d)%nat) by (rewrite app_length, firstn_length; lia).
+    rewrite L. replace (off + length d - (off + length d))%nat with 0%nat by lia. cbn. rewrite app_nil_r.
+    apply firstn_all2. lia.
+Qed.
+
+Fixpoint sizes (frs : list (list Z)) : list Z := match frs with [] => [] | d :: tl => Z.of_nat (length d) :: sizes tl end.
+
+Lemma total_sizes frs : total (sizes frs) = Z.of_nat (length (concat frs)).
+Proof. induction frs as [|d tl IH]; [reflexivity|]. cbn [sizes total concat]. rewrite app_length, IH. lia. Qed.
+
+Lemma ot_data_concat : forall frs buf len,
+  Forall chunk_ok (sizes frs) -> (len <= length buf)%nat ->
+  ot_inv (Z.of_nat len) (Z.of_nat (length buf)) -> Z.of_nat len + total (sizes frs) < two58 ->
+  exists b, ot_data grow_c frs buf len = Some (b, (len + length (concat frs))%nat) /\
+            firstn (len + length (concat frs)) b = firstn len buf ++ concat frs.
+Proof.
+  induction frs as [|d tl IH]; intros buf len Hcs Hle Hi Hb.
+  - cbn. exists buf. rewrite Nat.add_0_r, app_nil_r. split; reflexivity.
+  - cbn [sizes] in Hcs. inversion Hcs as [|? ? Hc Htl]; subst. cbn [sizes total] in Hb.
+    assert (Htot : 0 <= total (sizes tl)).
+    { clear -Htl. induction (sizes tl) as [|x l IHl]; [cbn; lia|]. inversion Htl; subst. cbn. unfold chunk_ok in *. specialize (IHl H2). lia. }
+    set (c := length d) in *.
+    assert (Hb1 : Z.of_nat len + Z.of_nat c < two58) by lia.
+    pose proof (ot_step_inv (Z.of_nat len) (Z.of_nat (length buf)) (Z.of_nat c) Hi Hc Hb1) as Hs. cbn zeta in Hs.
+    destruct Hs as [Hm [Hi' Hle']]. rewrite Hm in Hi', Hle'.
+    cbn [ot_data]. fold c.
+    set (buf' := if (length buf <? len + c)%nat then regrow buf (Z.to_nat (grow_c (Z.of_nat (length buf)) (Z.of_nat c))) else buf).
+    assert (Hbuf : length buf' = Z.to_nat (if Z.of_nat len + Z.of_nat c >? Z.of_nat (length buf) then grow_c (Z.of_nat (length buf)) (Z.of_nat c) else Z.of_nat (length buf))
+                   /\ firstn len buf' = firstn len buf).
+    { unfold buf'. destruct (length buf <? len + c)%nat eqn:E.
+      - apply Nat.ltb_lt in E.
+        assert (G : Z.of_nat len + Z.of_nat c >? Z.of_nat (length buf) = true) by lia.
+        rewrite G in *.
+        assert (Hn : (length buf <= Z.to_nat (grow_c (Z.of_nat (length buf)) (Z.of_nat c)))%nat) by lia.
+        split; [apply regrow_length; exact Hn|apply regrow_firstn; [exact Hle|exact Hn]].
+      - apply Nat.ltb_ge in E.
+        assert (G : Z.of_nat len + Z.of_nat c >? Z.of_nat (length buf) = false) by lia.
+        rewrite G. split; [lia|reflexivity]. }
+    destruct Hbuf as [Hlen Hpre].
+    set (size' := if Z.of_nat len + Z.of_nat c >? Z.of_nat (length buf) then grow_c (Z.of_nat (length buf)) (Z.of_nat c) else Z.of_nat (length buf)) in *.
+    assert (Hsz : Z.of_nat (length buf') = size').
+    { rewrite Hlen. apply Z2Nat.id. lia. }
+    assert (Hfit : (len + c <= length buf')%nat) by lia.
+    destruct (blit_ok buf' len d Hfit) as [b [Eb [Lb Fb]]]. fold c in Fb.
+    rewrite Eb.
+    assert (Hle2 : (len + c <= length b)%nat) by lia.
+    assert (Hi2 : ot_inv (Z.of_nat (len + c)) (Z.of_nat (length b))).
+    { rewrite Lb, Hsz, Nat2Z.inj_add. exact Hi'. }
+    assert (Hb2 : Z.of_nat (len + c) + total (sizes tl) < two58) by lia.
+    destruct (IH b (len + c)%nat Htl Hle2 Hi2 Hb2) as [b2 [E2 F2]].
+    exists b2. cbn [concat]. rewrite app_length. fold c.
+    replace (len + (c + length (concat tl)))%nat with (len + c + length (concat tl))%nat by lia.
+    split; [exact E2|]. rewrite F2, Fb, Hpre. rewrite <- app_assoc. reflexivity.
+Qed.
+
+(* every way of cutting a value into fragments of at most 64K octets is reassembled to the value *)
+Theorem ot_reassembles : forall frs : list (list Z),
+  Forall chunk_ok (sizes frs) -> Z.of_nat (length (concat frs)) < two58 ->
+  exists b, ot_data grow_c frs [] 0 = Some (b, length (concat frs)) /\ firstn (length (concat frs)) b = concat frs.
+Proof.
+  intros frs Hcs Hb.
+  assert (H0 : (0 <= length (@nil Z))%nat) by (cbn; lia).
+  assert (Hb' : Z.of_nat 0 + total (sizes frs) < two58) by (rewrite total_sizes; lia).
+  destruct (ot_data_concat frs [] 0%nat Hcs H0 ot_inv_0 Hb') as [b [E F]].
+  exists b. cbn in E, F. split; assumption.
+Qed.
+
+(* hence two fragmentations of the same octets give the same contents *)
+Corollary ot_order_independent : forall frs1 frs2 : list (list Z),
+  Forall chunk_ok (sizes frs1) -> Forall chunk_ok (sizes frs2) -> concat frs1 = concat frs2 ->
+  Z.of_nat (length (concat frs1)) < two58 ->
+  exists b1 b2 n, ot_data grow_c frs1 [] 0 = Some (b1, n) /\ ot_data grow_c frs2 [] 0 = Some (b2, n) /\ firstn n b1 = firstn n b2.
+Proof.
+  intros frs1 frs2 H1 H2 E Hb.
+  destruct (ot_reassembles frs1 H1 Hb) as [b1 [E1 F1]].
+  assert (Hb2 : Z.of_nat (length (concat frs2)) < two58) by (rewrite <- E; exact Hb).
+  destruct (ot_reassembles frs2 H2 Hb2) as [b2 [E2 F2]].
+  exists b1, b2, (length (concat frs1)). rewrite <- E in E2, F2. split; [exact E1|]. split; [exact E2|]. rewrite F1, F2. reflexivity.
+Qed.
+
+(* with the doubling rule the second of two growing fragments is stored past the block *)
+Theorem ot_data_doubling_refuted :
+  ot_data grow_double [repeat 1 3; repeat 2 9] [] 0 = None /\
+  ot_data grow_c [repeat 1 3; repeat 2 9] [] 0 = Some (repeat 1 3 ++ repeat 2 9 ++ repeat 0 9, 12%nat).
+Proof. vm_compute. split; reflexivity. Qed.
